@@ -97,7 +97,8 @@ theorem propagate_inv {orig : Cnf} : ∀ (fuel : Nat) (n : Net) (L : Cnf) (fr : 
               show ∀ e ∈ t.vAsrts, e.1 < n.sat.vals.length
               rw [((Lra.C09_core_iff n.lra t).1 (Lra.C09_core_check fuel n.lra t c hchk)).2.1]; exact h.reg.lra,
              h.reg.idl, h.reg.rdl, Lra.check_good fuel n.lra t c h.reg.good hchk,
-             by rw [Lra.check_aWatches h.th.base.lra.inv.tab hchk]; exact h.reg.aw⟩⟩
+             by rw [Lra.check_aWatches h.th.base.lra.inv.tab hchk]; exact h.reg.aw,
+             by rw [((Lra.C09_core_iff n.lra t).1 (Lra.C09_core_check fuel n.lra t c hchk)).2.2.2.2]; exact h.reg.sa⟩⟩
         cases c with
         | none =>
           simp only [Option.some.injEq, Prod.mk.injEq] at he
@@ -110,7 +111,7 @@ theorem propagate_inv {orig : Cnf} : ∀ (fuel : Nat) (n : Net) (L : Cnf) (fr : 
           · rw [if_pos hroot] at he
             simp only [Option.some.injEq, Prod.mk.injEq] at he
             obtain ⟨rfl, rfl⟩ := he
-            have := hinv1.rootConflict c1 c2 ((rootLevel_iff _).1 hroot)
+            have := hinv1.rootConflict (TEntails.cut hinv1.lemmas c1) c2 ((rootLevel_iff _).1 hroot)
             exact ⟨⟨_, _, this⟩, hq, rfl, fun _ => (rootLevel_iff _).1 hroot, k2⟩
           · rw [if_neg hroot] at he hg
             obtain ⟨g1, g2⟩ := hg
@@ -119,7 +120,7 @@ theorem propagate_inv {orig : Cnf} : ∀ (fuel : Nat) (n : Net) (L : Cnf) (fr : 
             | some n1 =>
               rw [hlf] at he g2
               simp only at he g2
-              obtain ⟨fr', l1, l2, l3, _⟩ := hinv1.learn hq (dl_pos_of_not_root hroot) c1 c2 g1 hlf
+              obtain ⟨fr', l1, l2, l3, _⟩ := hinv1.learn hq (dl_pos_of_not_root hroot) (TEntails.cut hinv1.lemmas c1) c2 g1 hlf
               exact (propagate_inv fuel n1 _ fr' l1 (by rw [l2]; exact hd) g2 b n' he).trans
                 (fun α => (l3 α).trans (k2 α))
     | cons p q =>
@@ -191,15 +192,20 @@ theorem propagate_inv {orig : Cnf} : ∀ (fuel : Nat) (n : Net) (L : Cnf) (fr : 
           · exact List.mem_append_right _ (List.mem_append_left _ hd'))
         obtain ⟨r1, r2⟩ := hs1'.recs hrecs (fun c hc =>
           Ents.of_mem (List.mem_append_right _ (List.mem_append_right _ hc)))
+        have hlemL : ∀ c ∈ L, TEntails n2 orig c := fun c hc =>
+          TEntails.congr (fun α hm => (t3 α).1 hm) (hinv1.lemmas c hc)
         have hlem2 : ∀ c ∈ L ++ new, TEntails n2 orig c := by
           intro c hc
           rcases List.mem_append.1 hc with hc | hc
-          · exact TEntails.congr (fun α hm => (t3 α).1 hm) (hinv1.lemmas c hc)
+          · exact hlemL c hc
           · rcases t4 c (by rw [r2.log]; exact List.mem_append_right _ hc) with h' | h'
             · exact TEntails.congr (fun α hm => (t3 α).1 hm) (tentails_of_ents' hinv1.lemmas (v2.log c h'))
-            · exact h'
+            · exact TEntails.cut hlemL h'
         have hinv2 : NetInv n2 orig (L ++ new) fr :=
-          ⟨r1, hlem2, t1, FramesLv.keep r2.keep fr hinv1.flv, by
+          ⟨r1, hlem2, t1.mono_origN (fun d hd' => by
+              rcases List.mem_append.1 hd' with hd' | hd'
+              · exact List.mem_append_left _ hd'
+              · exact List.mem_append_right _ (List.mem_append_left _ hd')), FramesLv.keep r2.keep fr hinv1.flv, by
             show fr.length = n2.sat.trailLim.length
             rw [r2.trailLim]; exact hinv1.flen, hreg2⟩
         have hd2 : n2.sat.dead = false := by rw [r2.dead]; exact hd1
@@ -219,7 +225,7 @@ theorem propagate_inv {orig : Cnf} : ∀ (fuel : Nat) (n : Net) (L : Cnf) (fr : 
             have hroot : n2.sat.rootLevel = true := hroot'
             simp only [Option.some.injEq, Prod.mk.injEq] at he
             obtain ⟨rfl, rfl⟩ := he
-            have := hinv3.rootConflict (c := cnfl) u1 u2 ((rootLevel_iff _).1 hroot)
+            have := hinv3.rootConflict (c := cnfl) (TEntails.cut hlemL u1) u2 ((rootLevel_iff _).1 hroot)
             exact ⟨⟨_, _, this⟩, rfl, rfl, fun _ => (rootLevel_iff _).1 hroot, fun α => t3 α⟩
           · rename_i hroot'
             have hroot : ¬ n2.sat.rootLevel = true := hroot'
@@ -238,7 +244,7 @@ theorem propagate_inv {orig : Cnf} : ∀ (fuel : Nat) (n : Net) (L : Cnf) (fr : 
             | some n3 =>
               rw [hlf] at he g2
               simp only at he g2
-              obtain ⟨fr', l1, l2, l3, _⟩ := hinv3.learn rfl (dl_pos_of_not_root hroot) u1 u2 g1 hlf
+              obtain ⟨fr', l1, l2, l3, _⟩ := hinv3.learn rfl (dl_pos_of_not_root hroot) (TEntails.cut hlemL u1) u2 g1 hlf
               exact (propagate_inv fuel n3 _ fr' l1 (by rw [l2]; exact hd2) g2 b n' he).trans
                 (fun α => (l3 α).trans (t3 α))
 
